@@ -304,8 +304,23 @@ class C14(object):
                 grp["nnz"] = np.array([int((im > 0).sum()) for im in ims], np.int32)
                 grp["measurement/rot"] = omega
             begin()
+            w0 = rnd.randint(1, nfr - 1) if (rnd.random() < 0.4 and nfr > 2) else 0
+            if w0 and not any((im > 0).any() for im in ims[:w0]):
+                w0 = 0
             with contextlib.redirect_stdout(io.StringIO()):
-                sc = sf.SparseScan(p, "1.1")
+                if w0:
+                    # only the frames from w0 on are loaded (the dataset object does this for split scans)
+                    sc = sf.SparseScan(p, "1.1::[%d:%d]" % (w0, nfr)) if rnd.random() < 0.5 else sf.SparseScan(p, "1.1", start=w0, n=nfr - w0)
+                    ims, omega, nfr = ims[w0:], omega[w0:], nfr - w0
+                    for q in range(nfr):
+                        fq = sc.getframe(q)
+                        rq, cq = np.nonzero(ims[q] > 0)
+                        if (fq is None) != (len(rq) == 0) or (fq is not None and (not np.array_equal(fq.row, rq) or not np.array_equal(fq.col, cq)
+                                                                               or not np.array_equal(fq.pixels["intensity"], ims[q][ims[q] > 0]))):
+                            viol = V("roundtrip-differs", "SparseScan loaded from frame %d on: frame %d is not the frame that was stored" % (w0, q))
+                            break
+                else:
+                    sc = sf.SparseScan(p, "1.1")
                 sc.cplabel(threshold=0, countall=False)
                 if "labels" not in sc.names:
                     sc.names.append("labels")
@@ -325,7 +340,9 @@ class C14(object):
                     rb, cb = np.nonzero(ims[b_] > 0)
                     want_pairs[(7, int(a_), 7, int(b_))] = pair_counter(ra, ca, lab_of[a_], rb, cb, lab_of[b_])
             got_keys = set((int(k[0]), int(k[1]), int(k[2]), int(k[3])) for k in pairs)
-            if got_keys != set(want_pairs):
+            if viol is not None:
+                pass
+            elif got_keys != set(want_pairs):
                 viol = V("overlaps-linear-wrong", "pairrow reports frame pairs %s; consecutive non-empty frames in omega order are %s "
                                                   "(empty frames: %s)" % (sorted(got_keys), sorted(want_pairs),
                                                                           [q for q in range(nfr) if not (ims[q] > 0).any()]))
